@@ -212,3 +212,62 @@ CONTRACTS = [
              requires=[R + "req_mesh_write"], ensures=[("handed_over", R + "ens_mesh_write")], raises=("ValueError",), policy=MPOL,
              props=["C17", "C07"], replayable=False),
 ]
+
+
+# ---- renew_address: the joining node must listen on the unassigned address while it asks
+
+def abs_request_address(self, level):
+    """contract of _request_address as renew_address needs it: the poll and address responses are
+    sent to 0o4444, so the node must be listening THERE when it asks; afterwards it is listening
+    on the adopted address (True) or still on 0o4444 (False)"""
+    require(node_ok(self) and self._addr == DEFAULT, "_request_address: listening on the unassigned address 0o4444")
+    require(0 <= level and level <= 4, "_request_address: level 0..4")
+    havoc_update(self)
+    ok = oracle_int(0, 1) == 1
+    if ok:
+        abs_begin(self, oracle_valid_node())
+        assume(self._addr != DEFAULT)
+    assume(node_ok(self))
+    return ok
+
+
+def oracle_valid_node():
+    a = oracle_int(1, 4095)
+    assume(valid_node(a))
+    return a
+
+
+def req_renew(self, timeout):
+    return req_update(self)
+
+
+def inv_renew(self, total_requests, request_count):
+    return node_ok(self) and self._addr == DEFAULT and 0 <= total_requests and total_requests <= 9 and 0 <= request_count and request_count <= 3
+
+
+def havoc_renew(self):
+    havoc_update(self)
+
+
+def renew_fixed(self):
+    return fixed_cfg(self) + (self._id,)
+
+
+def ens_renew(self, old_self, result, exc):
+    """returns the adopted (valid) address or None; the node is listening either way, and on the
+    unassigned address when it gave up"""
+    if exc is not None:
+        return False
+    if result is None:
+        return node_ok(self) and self._addr == DEFAULT
+    return node_ok(self) and result == self._addr and valid_node(self._addr) and self._addr != DEFAULT
+
+
+POL_RENEW = dict(MPOL)
+POL_RENEW["rf24_mesh:RF24MeshNoMaster._request_address"] = "ref:" + R + "abs_request_address"
+POL_RENEW["mixins:NetworkMixin._begin"] = "ref:spec.c07:abs_begin"
+CONTRACTS.append(
+    Contract("C17.renew_address", NM + ".renew_address", {"self": nm_schema(node_id=Int(1, 255)), "timeout": Int(0, 100)},
+             requires=[R + "req_renew"], ensures=[("joined_or_unassigned", R + "ens_renew")], raises=(), policy=POL_RENEW,
+             loops={(NM + ".renew_address", 0): LoopSpec(R + "inv_renew", havoc=[R + "havoc_renew"], frame=R + "renew_fixed")},
+             props=["C17", "C07", "C15"], replayable=False))
